@@ -168,6 +168,13 @@ func suiteMutate(tier string, seed uint64, model string) *Report {
 		return rep
 	}
 	distinct := map[string]bool{}
+	// Modify disagreements whose path has a filter below a descent are attributed after the loop
+	// (one more model batch): known class "modify-filter-sees-modified-descendants"
+	type liveCand struct {
+		d   Disagreement
+		req string
+	}
+	var liveCands []liveCand
 	for i, c := range cases {
 		x := BuildExpr(c.path)
 		name := opNames[c.op]
@@ -183,6 +190,14 @@ func suiteMutate(tier string, seed uint64, model string) *Report {
 		hasSlice := pathHas(c.path, "s")
 		// known class: equal to the specification variant with the inclusive-end slice rule
 		filterRoot := c.op == 2 && c.path[len(c.path)-1].Kind == "f" && strings.Contains(c.path[len(c.path)-1].Eq.Sexp(), "(p R")
+		liveShape := c.op >= 3 && !c.one && !hasSlice && filterBelowDescentNoRoot(c.path)
+		add := func(d Disagreement) {
+			if d.Class == "" && liveShape && d.Kind == "impl-vs-spec:mutate" {
+				liveCands = append(liveCands, liveCand{d, fmt.Sprintf("mutatel\t%d\t%s\t%s\t%s", c.op, PathSexp(c.path), Show(c.data), Show(c.val))})
+				return
+			}
+			rep.Add(d)
+		}
 		classOf := func(got string, one bool) string {
 			label := ""
 			switch {
@@ -304,7 +319,7 @@ func suiteMutate(tier string, seed uint64, model string) *Report {
 			}
 			cl := classOf(got, c.one)
 			if comparable && !(c.one && filterRoot) {
-				rep.Add(Disagreement{Case: desc, Where: name, Kind: kind, Impl: got, Spec: body, Class: cl})
+				add(Disagreement{Case: desc, Where: name, Kind: kind, Impl: got, Spec: body, Class: cl})
 			} else if cl != "" {
 				rep.Add(Disagreement{Case: desc, Where: name, Kind: kind, Impl: got, Spec: body, Class: cl})
 			}
@@ -318,7 +333,7 @@ func suiteMutate(tier string, seed uint64, model string) *Report {
 		if strings.HasPrefix(gerrs, "F ") {
 			rep.Add(Disagreement{Case: desc, Where: name + "/gen", Kind: "impl-vs-spec:mutate-panic", Impl: gerrs})
 		} else if gerrs == "" && !c.one && Show(gres) != body {
-			rep.Add(Disagreement{Case: desc, Where: name + "/gen", Kind: "impl-vs-spec:mutate", Impl: Show(gres), Spec: body, Class: classOf(Show(gres), false)})
+			add(Disagreement{Case: desc, Where: name + "/gen", Kind: "impl-vs-spec:mutate", Impl: Show(gres), Spec: body, Class: classOf(Show(gres), false)})
 		} else if gerrs == "" && c.one && !(c.one && filterRoot) {
 			gg := Show(gres)
 			in := false
@@ -337,8 +352,41 @@ func suiteMutate(tier string, seed uint64, model string) *Report {
 			rep.Samples = append(rep.Samples, name+" "+desc)
 		}
 	}
+	if len(liveCands) > 0 {
+		lreqs := make([]string, len(liveCands))
+		for i, lc := range liveCands {
+			lreqs[i] = lc.req
+		}
+		lans, err := RunModel(model, lreqs)
+		for i, lc := range liveCands {
+			if err == nil && lans[i] == lc.d.Impl {
+				lc.d.Class = "modify-filter-sees-modified-descendants"
+			}
+			rep.Add(lc.d)
+		}
+	}
 	_ = jp.R
 	rep.Distinct = len(distinct)
 	rep.Rule = "seeded root-anchored paths (2-5 fragments, last one allowed for the operation) x seeded trees x replacement values; Set/SetOne/Del/DelOne/Remove/RemoveOne/Modify/ModifyOne (constant and wrapping modifiers) on a deep copy, simple and gen data; compared with the extracted set_spec/del_spec/remove_spec/modify_spec (the *One forms: the result must be one of the per-location candidates) whenever the model says the request needs no element creation and the selected locations do not contain one another; every panic is a violation; non-trivial = cases whose specified result differs from the input"
 	return rep
+}
+
+// filterBelowDescentNoRoot: the path has a filter somewhere after a descent, and no filter of the
+// path has an operand anchored at $
+func filterBelowDescentNoRoot(path []Frag) bool {
+	seenD, found := false, false
+	for _, f := range path {
+		switch f.Kind {
+		case "D":
+			seenD = true
+		case "f":
+			if strings.Contains(f.Eq.Sexp(), "(p R") {
+				return false
+			}
+			if seenD {
+				found = true
+			}
+		}
+	}
+	return found
 }
